@@ -1,10 +1,12 @@
 package rules
 
 import (
+	"fmt"
 	"go/ast"
 	"go/constant"
 	"go/token"
 	"go/types"
+	"regexp"
 	"sort"
 	"strings"
 
@@ -24,6 +26,7 @@ func isXARes(w *core.World, f *types.Func, name string) bool {
 
 func checkC17(r *core.Run) {
 	r.Explain = "Decided statically: (C17.pure) phase two consults no package-level state that request paths mutate; (C17.id, also) the text of the branch identifier (String() of what XaIdBuild returns — the id of every XA command and the key the connection is kept under) is built from the whole xid and the whole branch id and nothing on the way cuts it; (C17.reset) every boolean state field of the XA connection (and of the embedded Conn) that some method raises to true is lowered again by a function the per-branch life cycle reaches (BeginTx, Commit, Rollback, ResetSession) — a pooled connection is reused without Close, so a flag only lowered in Close/CloseForce stays raised for every later branch and, when it guards XA END / XA ROLLBACK, leaves those branches active; (C17.order) in the XA connection's BeginTx the branch registration dominates (through its nil-error edge) the construction of the branch identifier, which dominates XAResource.Start; failure edges return an error; (C17.id) every xid argument of XAResource.Start/End/XAPrepare/Commit/Rollback is the String() of an identifier built by XaIdBuild from the global xid and the branch id (the connection's identifier field is only ever assigned such a value; phase two builds it with the same function from the request's Xid and BranchId); (C17.legal) in phase one End precedes XAPrepare through its nil-error edge, XAResource.Commit is reachable only from the phase-two BranchCommit, and the driver.Tx handed to the application ends and prepares the branch on Commit; (C17.surface) every failure of end / timeout check / prepare reaches the caller as a non-nil error, also through the implicit-transaction wrapper; (C17.status) phase-two success constants only with a nil error; (C17.nil) the nil target stored in Tx for XA mode is never dereferenced from an XA path. NOT decided: the database's own XA state machine; phase two arriving on another process."
+	r.Explain += " Round 8: (C17.reset, also) the condition under which the connection is marked kept implies the condition under which Close leaves a kept connection open — read as propositional formulas over their calls and comparisons (one-return helpers expanded, guard clauses and the call sites of an unexported helper included) and checked for every truth assignment."
 	r.Trusted = []string{"go/types, go/cfg", "XAResource implementations issue the XA statement named by the method"}
 	w := r.W
 	xc := w.NamedType("pkg/datasource/sql", "XAConn")
@@ -39,6 +42,7 @@ func checkC17(r *core.Run) {
 		return
 	}
 	c17IDText(r, idBuild)
+	c17KeptAgreement(r, xc)
 	reg := newReach(w, 3, func(f *types.Func) bool { return isBranchRegister(w, f) })
 	startR := newReach(w, 2, func(f *types.Func) bool { return isXARes(w, f, "Start") })
 	// ---- C17.order
@@ -1133,4 +1137,276 @@ func c17IDText(r *core.Run, idBuild *core.FuncInfo) {
 	}
 	r.Check(why == "", "C17.id", core.ShortKey(str.Obj)+" : the identifier text holds the whole xid and the whole branch id", w.Pos(str.Decl.Pos()), "concatenation of both fields, uncut",
 		why+": two branches of one global transaction (consecutive branch ids) can get the same identifier — their XA commands collide, the second connection replaces or loses its place under the shared key, and phase two addresses a connection that never prepared that branch")
+}
+
+// c17KeptAgreement (C17.reset): the connection of a prepared branch stays open for phase two. Read as propositional
+// formulas over the calls and comparisons they are made of (one-return bool helpers expanded, receivers
+// normalised), the condition under which the XA connection is marked kept (isConnKept = true: enclosing ifs, guard
+// clauses before it, and the same at the call sites of an unexported helper that raises the flag) implies the
+// condition under which a pool-initiated Close leaves a kept connection open — checked for every truth assignment
+// of the atoms. A Close that asks another question closes the physical connection of a PREPARED branch while the
+// keeper still hands it out for XA COMMIT / ROLLBACK. Shapes the reading does not recognise are left alone.
+func c17KeptAgreement(r *core.Run, xc *types.Named) {
+	w := r.W
+	recvName := func(f *core.FuncInfo) string {
+		if f.Decl.Recv != nil && len(f.Decl.Recv.List) == 1 && len(f.Decl.Recv.List[0].Names) == 1 {
+			return f.Decl.Recv.List[0].Names[0].Name
+		}
+		return ""
+	}
+	atoms := map[string]bool{}
+	var order []string
+	// eval evaluates a condition of function f under the assignment env (atoms are registered on the way)
+	var eval func(f *core.FuncInfo, e ast.Expr, env map[string]bool, depth int) bool
+	eval = func(f *core.FuncInfo, e ast.Expr, env map[string]bool, depth int) bool {
+		e = ast.Unparen(e)
+		switch x := e.(type) {
+		case *ast.BinaryExpr:
+			switch x.Op {
+			case token.LAND:
+				a := eval(f, x.X, env, depth)
+				b := eval(f, x.Y, env, depth)
+				return a && b
+			case token.LOR:
+				a := eval(f, x.X, env, depth)
+				b := eval(f, x.Y, env, depth)
+				return a || b
+			case token.NEQ, token.EQL:
+				// x != c and x == c share the atom "x == c"
+				key := c17Norm(types.ExprString(x.X), recvName(f)) + " == " + c17Norm(types.ExprString(x.Y), recvName(f))
+				if !atoms[key] {
+					atoms[key] = true
+					order = append(order, key)
+				}
+				if x.Op == token.NEQ {
+					return !env[key]
+				}
+				return env[key]
+			}
+		case *ast.UnaryExpr:
+			if x.Op == token.NOT {
+				return !eval(f, x.X, env, depth)
+			}
+		case *ast.CallExpr:
+			if g := core.Callee(f.Pkg.TypesInfo, x); g != nil && len(x.Args) == 0 && depth < 3 {
+				if gi := w.Info(g); gi != nil && gi.Decl.Body != nil && gi.Pkg == f.Pkg && len(gi.Decl.Body.List) == 1 {
+					if rs, ok := gi.Decl.Body.List[0].(*ast.ReturnStmt); ok && len(rs.Results) == 1 {
+						if b, ok := gi.Pkg.TypesInfo.TypeOf(rs.Results[0]).Underlying().(*types.Basic); ok && b.Info()&types.IsBoolean != 0 {
+							return eval(gi, rs.Results[0], env, depth+1)
+						}
+					}
+				}
+			}
+		}
+		key := c17Norm(types.ExprString(e), recvName(f))
+		if !atoms[key] {
+			atoms[key] = true
+			order = append(order, key)
+		}
+		return env[key]
+	}
+	mentionsKept := func(f *core.FuncInfo, e ast.Expr) bool {
+		found := false
+		var walk func(f *core.FuncInfo, e ast.Expr, depth int)
+		walk = func(f *core.FuncInfo, e ast.Expr, depth int) {
+			ast.Inspect(e, func(n ast.Node) bool {
+				switch x := n.(type) {
+				case *ast.SelectorExpr:
+					if x.Sel.Name == "isConnKept" {
+						found = true
+					}
+				case *ast.CallExpr:
+					if g := core.Callee(f.Pkg.TypesInfo, x); g != nil && len(x.Args) == 0 && depth < 3 {
+						if gi := w.Info(g); gi != nil && gi.Decl.Body != nil && gi.Pkg == f.Pkg && len(gi.Decl.Body.List) == 1 {
+							if rs, ok := gi.Decl.Body.List[0].(*ast.ReturnStmt); ok && len(rs.Results) == 1 {
+								walk(gi, rs.Results[0], depth+1)
+							}
+						}
+					}
+				}
+				return true
+			})
+		}
+		walk(f, e, 0)
+		return found
+	}
+	terminates := func(b *ast.BlockStmt) bool {
+		if b == nil || len(b.List) == 0 {
+			return false
+		}
+		_, ok := b.List[len(b.List)-1].(*ast.ReturnStmt)
+		return ok
+	}
+	// pathCond: the conjunction of conditions known where node x of f runs (enclosing ifs and earlier guard clauses)
+	type lit struct {
+		f   *core.FuncInfo
+		e   ast.Expr
+		neg bool
+	}
+	pathCond := func(f *core.FuncInfo, x ast.Node) []lit {
+		var out []lit
+		stack := enclosing(f.Decl.Body, x)
+		for i, anc := range stack {
+			switch a := anc.(type) {
+			case *ast.IfStmt:
+				if i+1 < len(stack) {
+					if stack[i+1] == ast.Node(a.Body) {
+						out = append(out, lit{f, a.Cond, false})
+					} else if a.Else != nil && stack[i+1] == a.Else {
+						out = append(out, lit{f, a.Cond, true})
+					}
+				}
+			case *ast.BlockStmt:
+				if i+1 < len(stack) {
+					for _, st := range a.List {
+						if st == stack[i+1] {
+							break
+						}
+						if ifs, ok := st.(*ast.IfStmt); ok && ifs.Else == nil && terminates(ifs.Body) {
+							out = append(out, lit{f, ifs.Cond, true})
+						}
+					}
+				}
+			}
+		}
+		return out
+	}
+	// the keeping side: one conjunction per site (with the call sites of an unexported helper), their disjunction
+	var hold [][]lit
+	var closeFn *core.FuncInfo
+	var closeCond *lit
+	shapes := true
+	for _, f := range w.SortedFuncs() {
+		if core.RecvNamed(f.Obj) != xc || w.IsTestFile(f.Decl.Pos()) || f.Decl.Body == nil {
+			continue
+		}
+		info := f.Pkg.TypesInfo
+		ast.Inspect(f.Decl.Body, func(n ast.Node) bool {
+			switch x := n.(type) {
+			case *ast.AssignStmt:
+				if len(x.Lhs) == 1 && len(x.Rhs) == 1 {
+					if sel, ok := ast.Unparen(x.Lhs[0]).(*ast.SelectorExpr); ok && sel.Sel.Name == "isConnKept" {
+						v := core.ConstVal(info, x.Rhs[0])
+						if v == nil {
+							shapes = false // the flag is computed: another design
+							return true
+						}
+						if v.String() != "true" {
+							return true
+						}
+						own := pathCond(f, x)
+						callers := w.Callers(f.Obj)
+						if f.Obj.Exported() || len(callers) == 0 {
+							hold = append(hold, own)
+							return true
+						}
+						for _, cs := range callers {
+							if cs.Caller == nil || cs.Caller.Decl.Body == nil || cs.InLit != nil || w.IsTestFile(cs.Call.Pos()) {
+								if cs.Caller != nil && w.IsTestFile(cs.Call.Pos()) {
+									continue
+								}
+								hold = append(hold, own)
+								continue
+							}
+							hold = append(hold, append(append([]lit{}, own...), pathCond(cs.Caller, cs.Call)...))
+						}
+					}
+				}
+			case *ast.IfStmt:
+				if f.Obj.Name() != "Close" || !mentionsKept(f, x.Cond) || !terminates(x.Body) {
+					return true
+				}
+				closes := false
+				ast.Inspect(x.Body, func(m ast.Node) bool {
+					if c, ok := m.(*ast.CallExpr); ok {
+						if g := core.Callee(info, c); g != nil && g.Name() == "Close" {
+							closes = true
+						}
+					}
+					return true
+				})
+				if closeCond != nil {
+					shapes = false
+					return true
+				}
+				closeFn = f
+				closeCond = &lit{f, x.Cond, closes}
+			}
+			return true
+		})
+	}
+	if !shapes || len(hold) == 0 || closeCond == nil {
+		return // another design of keeping connections: C20.release and C17.legal cover what they can
+	}
+	// register the atoms
+	evalAll := func(env map[string]bool) (h, c bool) {
+		for _, conj := range hold {
+			all := true
+			for _, l := range conj {
+				v := eval(l.f, l.e, env, 0)
+				if l.neg {
+					v = !v
+				}
+				if !v {
+					all = false
+				}
+			}
+			if all {
+				h = true
+			}
+		}
+		c = eval(closeCond.f, closeCond.e, env, 0)
+		if closeCond.neg {
+			c = !c
+		}
+		return
+	}
+	evalAll(map[string]bool{})
+	sort.Strings(order)
+	keptAtom := ""
+	for _, a := range order {
+		if strings.HasSuffix(a, ".isConnKept") {
+			keptAtom = a
+		}
+	}
+	if len(order) > 14 || keptAtom == "" {
+		return
+	}
+	var free []string
+	for _, a := range order {
+		if a != keptAtom {
+			free = append(free, a)
+		}
+	}
+	counter := ""
+	for m := 0; m < 1<<len(free) && counter == ""; m++ {
+		env := map[string]bool{}
+		for i, a := range free {
+			env[a] = m&(1<<i) != 0
+		}
+		// the flag is raised by the keeping side's own assignment: it does not constrain the keeping condition
+		env[keptAtom] = false
+		h0, _ := evalAll(env)
+		env[keptAtom] = true
+		h1, c := evalAll(env)
+		if (h0 || h1) && !c {
+			var parts []string
+			for _, a := range free {
+				parts = append(parts, fmt.Sprintf("%s=%v", a, env[a]))
+			}
+			counter = strings.Join(parts, ", ")
+		}
+	}
+	r.Sites++
+	r.Fn(closeFn)
+	r.Check(counter == "", "C17.reset", core.ShortKey(closeFn.Obj)+" leaves a kept connection open under the test it was kept under", w.Pos(closeFn.Decl.Pos()), "kept implies left open, for every value of: "+strings.Join(order, "; "),
+		"with "+counter+" the connection is marked kept but Close does not leave it open: database/sql's Close (idle limit, lifetime) closes the physical connection of a PREPARED branch, and phase two sends XA COMMIT / ROLLBACK to a dead session")
+}
+
+// c17Norm replaces the receiver's name in the text of an expression.
+func c17Norm(s, recv string) string {
+	if recv == "" {
+		return s
+	}
+	return regexp.MustCompile(`\b`+regexp.QuoteMeta(recv)+`\b`).ReplaceAllString(s, "recv")
 }
